@@ -25,6 +25,9 @@ Record cx := {
   half : bool;            (* the wrapped write has transferred part of its data and waits for the peer to take the rest *)
   failing : bool;         (* the wrapped connection is about to fail an operation with an error of its own (not a timeout) *)
   op_err : bool;          (* the wrapped operation failed with that error *)
+  refusing : bool;        (* the wrapped connection will refuse the next call that sets its deadline *)
+  set_err : bool;         (* the watcher of this operation has recorded the error of a refused deadline call *)
+  tainted : bool;         (* ghost: some deadline call has been refused so far (then nothing can be promised about deadlines) *)
   op_n : Z;               (* result of the wrapped operation: bytes (1 stands for "some") *)
   op_timeout : bool;      (* the wrapped operation failed with a timeout *)
   ret_ctx_err : bool;     (* the operation returned the context's error *)
@@ -33,13 +36,13 @@ Record cx := {
 
 Definition cx0 : cx :=
   {| mp := M0; wp := WNone; cancelled := false; done_closed := false; dl_past := false; ready := false; half := false;
-     failing := false; op_err := false; op_n := 0; op_timeout := false; ret_ctx_err := false; ret_n := 0 |}.
+     failing := false; op_err := false; refusing := false; set_err := false; tainted := false; op_n := 0; op_timeout := false; ret_ctx_err := false; ret_n := 0 |}.
 
 Definition set_m (s : cx) (p : mpc) : cx :=
-  {| mp := p; wp := wp s; cancelled := cancelled s; done_closed := done_closed s; dl_past := dl_past s; ready := ready s; half := half s; failing := failing s; op_err := op_err s;
+  {| mp := p; wp := wp s; cancelled := cancelled s; done_closed := done_closed s; dl_past := dl_past s; ready := ready s; half := half s; failing := failing s; op_err := op_err s; refusing := refusing s; set_err := set_err s; tainted := tainted s;
      op_n := op_n s; op_timeout := op_timeout s; ret_ctx_err := ret_ctx_err s; ret_n := ret_n s |}.
 Definition set_w (s : cx) (p : wpc) : cx :=
-  {| mp := mp s; wp := p; cancelled := cancelled s; done_closed := done_closed s; dl_past := dl_past s; ready := ready s; half := half s; failing := failing s; op_err := op_err s;
+  {| mp := mp s; wp := p; cancelled := cancelled s; done_closed := done_closed s; dl_past := dl_past s; ready := ready s; half := half s; failing := failing s; op_err := op_err s; refusing := refusing s; set_err := set_err s; tainted := tainted s;
      op_n := op_n s; op_timeout := op_timeout s; ret_ctx_err := ret_ctx_err s; ret_n := ret_n s |}.
 
 (* events: 0-9 main steps, 10-19 watcher steps, 20-29 environment *)
@@ -54,7 +57,10 @@ Inductive cev :=
 | EN_half                              (* the peer takes part of a pending write *)
 | EM_op_data0                          (* the wrapped operation completes an empty transfer (zero-length datagram or write) *)
 | EM_op_err                            (* the wrapped operation fails with an error of the wrapped connection's own *)
-| EN_fail.                             (* the wrapped connection gets ready to fail an operation (transient error) *)
+| EN_fail                              (* the wrapped connection gets ready to fail an operation (transient error) *)
+| EN_refuse                            (* the wrapped connection will refuse the next call that sets its deadline *)
+| EW_set_past_fail                     (* the watcher's SetDeadline(long ago) is refused: it records the error and exits *)
+| EW_restore_fail.                     (* the watcher's SetDeadline(zero) is refused: it records the error; the forced deadline stays *)
 
 Definition cxstep (s : cx) (e : cev) : option cx :=
   match e with
@@ -66,7 +72,7 @@ Definition cxstep (s : cx) (e : cev) : option cx :=
       match mp s with
       | MOp => if ready s then
                  Some {| mp := M6; wp := wp s; cancelled := cancelled s; done_closed := done_closed s; dl_past := dl_past s;
-                         ready := false; half := false; failing := failing s; op_err := false; op_n := 1; op_timeout := false; ret_ctx_err := false; ret_n := 0 |}
+                         ready := false; half := false; failing := failing s; op_err := false; refusing := refusing s; set_err := set_err s; tainted := tainted s; op_n := 1; op_timeout := false; ret_ctx_err := false; ret_n := 0 |}
                else None
       | _ => None
       end
@@ -74,21 +80,21 @@ Definition cxstep (s : cx) (e : cev) : option cx :=
       match mp s with
       | MOp => if dl_past s && negb (half s) then
                  Some {| mp := M6; wp := wp s; cancelled := cancelled s; done_closed := done_closed s; dl_past := dl_past s;
-                         ready := ready s; half := half s; failing := failing s; op_err := false; op_n := 0; op_timeout := true; ret_ctx_err := false; ret_n := 0 |}
+                         ready := ready s; half := half s; failing := failing s; op_err := false; refusing := refusing s; set_err := set_err s; tainted := tainted s; op_n := 0; op_timeout := true; ret_ctx_err := false; ret_n := 0 |}
                else None
       | _ => None
       end
   | EM_close_done =>
       match mp s with
       | M6 => Some {| mp := M7; wp := wp s; cancelled := cancelled s; done_closed := true; dl_past := dl_past s;
-                      ready := ready s; half := half s; failing := failing s; op_err := op_err s; op_n := op_n s; op_timeout := op_timeout s; ret_ctx_err := false; ret_n := 0 |}
+                      ready := ready s; half := half s; failing := failing s; op_err := op_err s; refusing := refusing s; set_err := set_err s; tainted := tainted s; op_n := op_n s; op_timeout := op_timeout s; ret_ctx_err := false; ret_n := 0 |}
       | _ => None
       end
   | EM_wait_return =>
       (* wg.Wait returns once the watcher has exited; then: if e := ctx.Err(); e != nil && n == 0 { err = e } *)
       match mp s, wp s with
       | M7, WEnd => Some {| mp := MRet; wp := WEnd; cancelled := cancelled s; done_closed := done_closed s; dl_past := dl_past s;
-                            ready := ready s; half := half s; failing := failing s; op_err := op_err s; op_n := op_n s; op_timeout := op_timeout s;
+                            ready := ready s; half := half s; failing := failing s; op_err := op_err s; refusing := refusing s; set_err := set_err s; tainted := tainted s; op_n := op_n s; op_timeout := op_timeout s;
                             ret_ctx_err := cancelled s && (op_n s =? 0); ret_n := op_n s |}
       | _, _ => None
       end
@@ -96,15 +102,15 @@ Definition cxstep (s : cx) (e : cev) : option cx :=
   | EW_done => match wp s with W4 => if done_closed s then Some (set_w s WEnd) else None | _ => None end
   | EW_set_past =>
       match wp s with
-      | WSetPast => Some {| mp := mp s; wp := W5; cancelled := cancelled s; done_closed := done_closed s; dl_past := true;
-                            ready := ready s; half := half s; failing := failing s; op_err := op_err s; op_n := op_n s; op_timeout := op_timeout s; ret_ctx_err := ret_ctx_err s; ret_n := ret_n s |}
+      | WSetPast => if refusing s then None else Some {| mp := mp s; wp := W5; cancelled := cancelled s; done_closed := done_closed s; dl_past := true;
+                            ready := ready s; half := half s; failing := failing s; op_err := op_err s; refusing := refusing s; set_err := set_err s; tainted := tainted s; op_n := op_n s; op_timeout := op_timeout s; ret_ctx_err := ret_ctx_err s; ret_n := ret_n s |}
       | _ => None
       end
   | EW_recv_done => match wp s with W5 => if done_closed s then Some (set_w s WRestore) else None | _ => None end
   | EW_restore =>
       match wp s with
-      | WRestore => Some {| mp := mp s; wp := WEnd; cancelled := cancelled s; done_closed := done_closed s; dl_past := false;
-                            ready := ready s; half := half s; failing := failing s; op_err := op_err s; op_n := op_n s; op_timeout := op_timeout s; ret_ctx_err := ret_ctx_err s; ret_n := ret_n s |}
+      | WRestore => if refusing s then None else Some {| mp := mp s; wp := WEnd; cancelled := cancelled s; done_closed := done_closed s; dl_past := false;
+                            ready := ready s; half := half s; failing := failing s; op_err := op_err s; refusing := refusing s; set_err := set_err s; tainted := tainted s; op_n := op_n s; op_timeout := op_timeout s; ret_ctx_err := ret_ctx_err s; ret_n := ret_n s |}
       | _ => None
       end
   | EN_cancel =>
@@ -112,15 +118,15 @@ Definition cxstep (s : cx) (e : cev) : option cx :=
       match mp s with
       | MRet => Some s
       | _ =>
-      Some {| mp := mp s; wp := wp s; cancelled := true; done_closed := done_closed s; dl_past := dl_past s; ready := ready s; half := half s; failing := failing s; op_err := op_err s;
+      Some {| mp := mp s; wp := wp s; cancelled := true; done_closed := done_closed s; dl_past := dl_past s; ready := ready s; half := half s; failing := failing s; op_err := op_err s; refusing := refusing s; set_err := set_err s; tainted := tainted s;
               op_n := op_n s; op_timeout := op_timeout s; ret_ctx_err := ret_ctx_err s; ret_n := ret_n s |}
       end
   | EN_ready =>
-      Some {| mp := mp s; wp := wp s; cancelled := cancelled s; done_closed := done_closed s; dl_past := dl_past s; ready := true; half := half s; failing := failing s; op_err := op_err s;
+      Some {| mp := mp s; wp := wp s; cancelled := cancelled s; done_closed := done_closed s; dl_past := dl_past s; ready := true; half := half s; failing := failing s; op_err := op_err s; refusing := refusing s; set_err := set_err s; tainted := tainted s;
               op_n := op_n s; op_timeout := op_timeout s; ret_ctx_err := ret_ctx_err s; ret_n := ret_n s |}
   | EM_next =>
       match mp s with
-      | MRet => Some {| mp := M0; wp := WNone; cancelled := false; done_closed := false; dl_past := dl_past s; ready := ready s; half := false; failing := failing s; op_err := false;
+      | MRet => Some {| mp := M0; wp := WNone; cancelled := false; done_closed := false; dl_past := dl_past s; ready := ready s; half := false; failing := failing s; op_err := false; refusing := refusing s; set_err := false; tainted := tainted s;
                         op_n := 0; op_timeout := false; ret_ctx_err := false; ret_n := 0 |}
       | _ => None
       end
@@ -128,7 +134,7 @@ Definition cxstep (s : cx) (e : cev) : option cx :=
       match mp s with
       | MOp => if dl_past s && half s then
                  Some {| mp := M6; wp := wp s; cancelled := cancelled s; done_closed := done_closed s; dl_past := dl_past s;
-                         ready := ready s; half := false; failing := failing s; op_err := false; op_n := 1; op_timeout := true; ret_ctx_err := false; ret_n := 0 |}
+                         ready := ready s; half := false; failing := failing s; op_err := false; refusing := refusing s; set_err := set_err s; tainted := tainted s; op_n := 1; op_timeout := true; ret_ctx_err := false; ret_n := 0 |}
                else None
       | _ => None
       end
@@ -136,7 +142,7 @@ Definition cxstep (s : cx) (e : cev) : option cx :=
       match mp s with
       | MOp => if ready s then
                  Some {| mp := M6; wp := wp s; cancelled := cancelled s; done_closed := done_closed s; dl_past := dl_past s;
-                         ready := false; half := false; failing := failing s; op_err := false; op_n := 0; op_timeout := false;
+                         ready := false; half := false; failing := failing s; op_err := false; refusing := refusing s; set_err := set_err s; tainted := tainted s; op_n := 0; op_timeout := false;
                          ret_ctx_err := false; ret_n := 0 |}
                else None
       | _ => None
@@ -145,19 +151,43 @@ Definition cxstep (s : cx) (e : cev) : option cx :=
       match mp s with
       | MOp => if failing s then
                  Some {| mp := M6; wp := wp s; cancelled := cancelled s; done_closed := done_closed s; dl_past := dl_past s;
-                         ready := ready s; half := false; failing := false; op_err := true; op_n := 0; op_timeout := false;
+                         ready := ready s; half := false; failing := false; op_err := true; refusing := refusing s; set_err := set_err s; tainted := tainted s; op_n := 0; op_timeout := false;
                          ret_ctx_err := false; ret_n := 0 |}
                else None
       | _ => None
       end
   | EN_fail =>
       Some {| mp := mp s; wp := wp s; cancelled := cancelled s; done_closed := done_closed s; dl_past := dl_past s; ready := ready s;
-              half := half s; failing := true; op_err := op_err s; op_n := op_n s; op_timeout := op_timeout s;
+              half := half s; failing := true; op_err := op_err s; refusing := refusing s; set_err := set_err s; tainted := tainted s; op_n := op_n s; op_timeout := op_timeout s;
               ret_ctx_err := ret_ctx_err s; ret_n := ret_n s |}
+  | EN_refuse =>
+      Some {| mp := mp s; wp := wp s; cancelled := cancelled s; done_closed := done_closed s; dl_past := dl_past s; ready := ready s;
+              half := half s; failing := failing s; op_err := op_err s; refusing := true; set_err := set_err s; tainted := tainted s;
+              op_n := op_n s; op_timeout := op_timeout s; ret_ctx_err := ret_ctx_err s; ret_n := ret_n s |}
+  | EW_set_past_fail =>
+      match wp s with
+      | WSetPast => if refusing s then
+                      Some {| mp := mp s; wp := WEnd; cancelled := cancelled s; done_closed := done_closed s; dl_past := dl_past s;
+                              ready := ready s; half := half s; failing := failing s; op_err := op_err s; refusing := false;
+                              set_err := true; tainted := true; op_n := op_n s; op_timeout := op_timeout s;
+                              ret_ctx_err := ret_ctx_err s; ret_n := ret_n s |}
+                    else None
+      | _ => None
+      end
+  | EW_restore_fail =>
+      match wp s with
+      | WRestore => if refusing s then
+                      Some {| mp := mp s; wp := WEnd; cancelled := cancelled s; done_closed := done_closed s; dl_past := dl_past s;
+                              ready := ready s; half := half s; failing := failing s; op_err := op_err s; refusing := false;
+                              set_err := true; tainted := true; op_n := op_n s; op_timeout := op_timeout s;
+                              ret_ctx_err := ret_ctx_err s; ret_n := ret_n s |}
+                    else None
+      | _ => None
+      end
   | EN_half =>
       match mp s with
       | MOp => Some {| mp := mp s; wp := wp s; cancelled := cancelled s; done_closed := done_closed s; dl_past := dl_past s;
-                       ready := ready s; half := true; failing := failing s; op_err := op_err s; op_n := op_n s; op_timeout := op_timeout s; ret_ctx_err := ret_ctx_err s;
+                       ready := ready s; half := true; failing := failing s; op_err := op_err s; refusing := refusing s; set_err := set_err s; tainted := tainted s; op_n := op_n s; op_timeout := op_timeout s; ret_ctx_err := ret_ctx_err s;
                        ret_n := ret_n s |}
       | _ => None
       end
@@ -166,7 +196,7 @@ Definition cxstep (s : cx) (e : cev) : option cx :=
 Definition all_events : list cev :=
   [EM_lock; EM_check; EM_add; EM_go; EM_op_data; EM_op_timeout; EM_close_done; EM_wait_return;
    EW_ctx; EW_done; EW_set_past; EW_recv_done; EW_restore; EN_cancel; EN_ready; EM_next; EM_op_partial; EN_half;
-   EM_op_data0; EM_op_err; EN_fail].
+   EM_op_data0; EM_op_err; EN_fail; EN_refuse; EW_set_past_fail; EW_restore_fail].
 
 Fixpoint cxrun (s : cx) (h : list cev) : option cx :=
   match h with
@@ -180,11 +210,14 @@ Definition ev_of_code (c : Z) : option cev :=
 
 (* the error an operation returns is the context's (ret_ctx_err), else the wrapped operation's own *)
 Definition ret_own_err (s : cx) : bool := op_err s && negb (ret_ctx_err s).
+(* ... and when there is no error at all, the recorded error of a refused deadline call *)
+Definition ret_set_err (s : cx) : bool := set_err s && negb (ret_ctx_err s) && negb (op_err s) && negb (op_timeout s).
 
 (* a log entry is [code] or, for the return of an operation, [7; n; context error?; the wrapped connection's own error?]:
    the result the implementation reported, which must be the model's *)
 Definition result_matches (s : cx) (extra : zs) : bool :=
   match extra with
+  | [n; ce; oe; se] => (ret_n s =? n) && (b2z (ret_ctx_err s) =? ce) && (b2z (ret_own_err s) =? oe) && (b2z (ret_set_err s) =? se)
   | [n; ce; oe] => (ret_n s =? n) && (b2z (ret_ctx_err s) =? ce) && (b2z (ret_own_err s) =? oe)
   | [n; ce] => (ret_n s =? n) && (b2z (ret_ctx_err s) =? ce)
   | _ => true
